@@ -118,6 +118,70 @@ def history_part(ctx, quick):
     ctx.replays += n
     ctx.nontrivial += len(r.records)
     ctx.sample({"history": [(c["i"], c["a"]) for c in r.records[-1]["hist"]], "templates": list(TEMPLATES)})
+    file_histories(ctx, r.records)
+
+
+FILES = {
+    "main.pt": '<div><x tal:condition="extra" metal:use-macro="load: sub/widget.pt" />[<y metal:use-macro="load: footer.pt" />]</div>',
+    "footer.pt": "<i>root footer</i>",
+    "sub/widget.pt": '<b>widget(<z metal:use-macro="load: footer.pt" />)</b>',
+    "sub/footer.pt": "<i>sub footer</i>",
+}
+
+
+def file_histories(ctx, records):
+    """the same histories on FILE templates that share their inputs: one search-path list handed to two PageTemplateFile
+    instances, and one PageTemplateLoader; a relative name exists in two directories.  Every call returns what it
+    returns alone on fresh objects, and the list the caller passed in is not modified."""
+    sys.path.insert(0, REPO_SRC)
+    from chameleon import PageTemplateFile, PageTemplateLoader
+    d = tempfile.mkdtemp(prefix="c14f_")
+    n = 0
+    try:
+        for name, body in FILES.items():
+            os.makedirs(os.path.dirname(os.path.join(d, name)), exist_ok=True)
+            open(os.path.join(d, name), "w").write(body)
+        argsets = {1: dict(extra=False), 2: dict(extra=True), 3: dict(extra=False)}
+
+        def alone(a):
+            return PageTemplateFile(os.path.join(d, "main.pt"), search_path=[d])(**argsets[a])
+        ref = {a: alone(a) for a in argsets}
+        for mode in ("shared-list", "shared-loader"):
+            for rec in records:
+                sp = [d]
+                if mode == "shared-list":
+                    insts = {1: PageTemplateFile(os.path.join(d, "main.pt"), search_path=sp),
+                             2: PageTemplateFile(os.path.join(d, "main.pt"), search_path=sp)}
+                else:
+                    loader = PageTemplateLoader(sp)
+                    insts = {1: loader.load("main.pt"), 2: PageTemplateLoader(sp).load("main.pt")}
+                for call in rec["hist"]:
+                    try:
+                        got = insts[call["i"]](**argsets[call["a"]])
+                    except Exception as e:
+                        got = "EXC %s: %s" % (type(e).__name__, str(e).splitlines()[:1])
+                    n += 1
+                    if sp != [d]:
+                        ctx.violation("file templates (%s): the search-path list passed by the caller was modified: %r" % (
+                            mode, [os.path.relpath(x, d) for x in sp]), dict(kind="determinism-files", mode=mode))
+                        return
+                    if got != ref[call["a"]]:
+                        ctx.violation("file templates (%s), history %s: call %s on instance %d returns %r; alone on fresh objects: %r" % (
+                            mode, [(c["i"], c["a"]) for c in rec["hist"]], argsets[call["a"]], call["i"], got, ref[call["a"]]),
+                            dict(kind="determinism-files", mode=mode, files=FILES))
+                        return
+                if mode == "shared-loader":
+                    # a name that exists in two directories resolves through the shared loader as it does alone
+                    got = loader.load("footer.pt")()
+                    n += 1
+                    if got != "<i>root footer</i>":
+                        ctx.violation("shared loader: load('footer.pt') after the history %s renders %r; alone: '<i>root footer</i>'" % (
+                            [(c["i"], c["a"]) for c in rec["hist"]], got), dict(kind="determinism-files", mode=mode))
+                        return
+    finally:
+        shutil.rmtree(d, ignore_errors=True)
+    ctx.replays += n
+    ctx.notes["file_history_calls"] = n
 
 
 # ------------------------------------------------------------------ forced thread schedules
